@@ -4,6 +4,10 @@ import (
 	"fmt"
 	"go/constant"
 	"go/types"
+	"golang.org/x/tools/go/ssa"
+	"os"
+	"regexp"
+	"sort"
 	"strings"
 )
 
@@ -66,6 +70,218 @@ func (e *Env) withState(st *State) *Env {
 
 // translate returns the SMT term for spec expression x, or an error.
 func (e *Env) translate(x Expr) (t Term, err error) {
+	t, err = e.translate1(x)
+	for tries := 0; err != nil && tries < 3; tries++ {
+		// a clause that names a local variable the function does not have (any more): when exactly one
+		// local in scope that the contract does not mention anywhere makes the clause well-typed, the
+		// clause is read with that local (a renamed local is the same proof hint under another name)
+		m := unknownIdentRe.FindStringSubmatch(err.Error())
+		if m == nil || e.vc == nil || e.vc.spec == nil {
+			return
+		}
+		name := m[1]
+		if _, done := e.vc.renamed[name]; done {
+			return
+		}
+		if e.vc.localNames()[name] {
+			return // the function has a variable of that name: it is out of scope here, not renamed
+		}
+		wantType, wantOrd := e.vc.P.localType(e.vc.spec.Name, name)
+		var fits []string
+		for _, c := range e.renameCandidates() {
+			if !e.fitsUses(name, c) || (wantType != "" && e.goTypeOf(c) != "" && e.goTypeOf(c) != wantType) {
+				continue
+			}
+			e.vc.renamed[name] = c
+			if _, err2 := e.translate1(x); err2 == nil {
+				fits = append(fits, c)
+			}
+			delete(e.vc.renamed, name)
+		}
+		if len(fits) > 1 && wantOrd >= 0 && wantType != "" {
+			// several variables of the right type: the one declared at the same position among the
+			// function's variables of that type as the variable the contract was written for
+			if y := e.vc.varAtOrdinal(wantType, wantOrd); y != "" {
+				for _, c := range fits {
+					if c == y {
+						fits = []string{y}
+					}
+				}
+			}
+		}
+		if os.Getenv("GOVC_DEBUG") != "" {
+			fmt.Fprintf(os.Stderr, "rename %s in %s: candidates %v fit %v\n", name, e.vc.name, e.renameCandidates(), fits)
+		}
+		if len(fits) != 1 {
+			return
+		}
+		e.vc.renamed[name] = fits[0]
+		e.vc.note(fmt.Sprintf("the contract names a local variable %q that the function does not have; read as %q, the only local in scope that the contract does not mention and that fits the clause", name, fits[0]))
+		t, err = e.translate1(x)
+	}
+	return
+}
+
+// goTypeOf: the Go type of a variable in scope, as text.
+func (e *Env) goTypeOf(cand string) string {
+	if t, ok := e.lookup(cand); ok && t.T != nil {
+		return types.TypeString(t.T, nil)
+	}
+	if c, ok := e.lookup("&" + cand); ok && c.T != nil {
+		return types.TypeString(derefT(c.T), nil)
+	}
+	return ""
+}
+
+// fitsUses: can local cand stand for the name the contract uses, judging by how the contract's clauses use
+// the name (indexed, measured, taken as a slice, selected from)?
+func (e *Env) fitsUses(name, cand string) bool {
+	t, ok := e.lookup(cand)
+	var gt types.Type
+	if ok {
+		gt = t.T
+	} else if c, ok := e.lookup("&" + cand); ok && c.T != nil {
+		gt = derefT(c.T)
+	}
+	if gt == nil {
+		return true
+	}
+	u := types.Unalias(gt).Underlying()
+	_, isSlice := u.(*types.Slice)
+	_, isMap := u.(*types.Map)
+	_, isArr := u.(*types.Array)
+	isStr := false
+	if b, ok := u.(*types.Basic); ok && b.Info()&types.IsString != 0 {
+		isStr = true
+	}
+	q := regexp.QuoteMeta(name)
+	for _, c := range e.vc.spec.Clauses {
+		txt := c.Text + " " + c.Name
+		if regexp.MustCompile(`\b(elemsof|sref)\(`+q+`\)`).MatchString(txt) && !isSlice {
+			return false
+		}
+		if regexp.MustCompile(`(^|[^A-Za-z0-9_.])`+q+`\[`).MatchString(txt) && !(isSlice || isMap || isArr || isStr) {
+			return false
+		}
+		if regexp.MustCompile(`\blen\(`+q+`\)`).MatchString(txt) && !(isSlice || isMap || isArr || isStr) {
+			return false
+		}
+		for _, m := range regexp.MustCompile(`(^|[^A-Za-z0-9_.])`+q+`\.([A-Za-z_][A-Za-z0-9_]*)`).FindAllStringSubmatch(txt, -1) {
+			if _, isGhost := e.vc.P.spec.GhostFields[m[2]]; isGhost {
+				continue
+			}
+			pkg := e.vc.P.logPkg.Types
+			if n, ok := derefNamed(gt); ok && n.Obj().Pkg() != nil {
+				pkg = n.Obj().Pkg()
+			}
+			if _, ok := fieldPath(gt, pkg, m[2]); !ok {
+				return false
+			}
+		}
+	}
+	return true
+}
+
+var unknownIdentRe = regexp.MustCompile(`unknown identifier "([A-Za-z_][A-Za-z0-9_]*)"`)
+
+// localNames: the source-level variables of the function (parameters, results, captured variables, locals).
+func (vc *VC) localNames() map[string]bool {
+	if vc.localNameSet != nil {
+		return vc.localNameSet
+	}
+	m := map[string]bool{}
+	if vc.fn != nil {
+		for _, p := range vc.fn.Params {
+			m[p.Name()] = true
+		}
+		for _, f := range vc.fn.FreeVars {
+			m[f.Name()] = true
+		}
+		for _, b := range vc.fn.Blocks {
+			for _, in := range b.Instrs {
+				switch x := in.(type) {
+				case *ssa.DebugRef:
+					if v, ok := x.Object().(*types.Var); ok && !v.IsField() && v.Pkg() != nil && v.Parent() != v.Pkg().Scope() {
+						m[v.Name()] = true
+					}
+				case *ssa.Alloc:
+					if x.Comment != "" && !strings.ContainsAny(x.Comment, " .$") {
+						m[x.Comment] = true
+					}
+				}
+			}
+		}
+	}
+	vc.localNameSet = m
+	return m
+}
+
+// varAtOrdinal: the name of the ord-th variable (in declaration order) of the given type among the
+// variables of the function, or "" when that cannot be determined.
+func (vc *VC) varAtOrdinal(typ string, ord int) string {
+	if vc.fn == nil || len(vc.fn.FreeVars) > 0 {
+		return ""
+	}
+	seen := map[types.Object]bool{}
+	var objs []types.Object
+	add := func(o types.Object) {
+		v, ok := o.(*types.Var)
+		if !ok || v.IsField() || v.Pkg() == nil || v.Parent() == v.Pkg().Scope() || seen[o] || types.TypeString(v.Type(), nil) != typ {
+			return
+		}
+		seen[o] = true
+		objs = append(objs, o)
+	}
+	for _, p := range vc.fn.Params {
+		if p.Object() != nil {
+			add(p.Object())
+		}
+	}
+	for _, b := range vc.fn.Blocks {
+		for _, in := range b.Instrs {
+			if d, ok := in.(*ssa.DebugRef); ok && d.Object() != nil {
+				add(d.Object())
+			}
+		}
+	}
+	sort.Slice(objs, func(i, j int) bool { return objs[i].Pos() < objs[j].Pos() })
+	if ord < 0 || ord >= len(objs) {
+		return ""
+	}
+	return objs[ord].Name()
+}
+
+// renameCandidates: the variables of the function in scope that no clause of its contract mentions.
+func (e *Env) renameCandidates() []string {
+	vc := e.vc
+	mentioned := map[string]bool{}
+	for _, c := range vc.spec.Clauses {
+		for _, id := range goIdentRe.FindAllString(c.Text+" "+c.Name, -1) {
+			mentioned[id] = true
+		}
+	}
+	taken := map[string]bool{}
+	for _, v := range vc.renamed {
+		taken[v] = true
+	}
+	locals := vc.localNames()
+	seen := map[string]bool{}
+	var out []string
+	for x := e; x != nil; x = x.parent {
+		for k := range x.vars {
+			n := strings.TrimPrefix(k, "&")
+			if n == "" || !locals[n] || mentioned[n] || taken[n] || seen[n] {
+				continue
+			}
+			seen[n] = true
+			out = append(out, n)
+		}
+	}
+	sort.Strings(out)
+	return out
+}
+
+func (e *Env) translate1(x Expr) (t Term, err error) {
 	defer func() {
 		if r := recover(); r != nil {
 			if xe, ok := r.(xlateErr); ok {
@@ -409,6 +625,11 @@ func (e *Env) coerceNil(a, b Term) (Term, Term) {
 
 func (e *Env) ident(name string) Term {
 	vc := e.vc
+	if a, ok := vc.renamed[name]; ok {
+		if _, bound := e.lookup(name); !bound {
+			name = a
+		}
+	}
 	if t, ok := e.lookup(name); ok {
 		return t
 	}
@@ -988,6 +1209,13 @@ func (e *Env) call(x *ECall) Term {
 			}
 			if _, bound := e.vars["&"+id.Name]; bound {
 				return e.tr(x.Args[0])
+			}
+			// the function may have the variable under another name (renamed): same resolution as for
+			// any other name the contract uses
+			if !e.vc.localNames()[id.Name] {
+				if t, err := e.translate(x.Args[0]); err == nil {
+					return t
+				}
 			}
 			return e.tr(x.Args[1])
 		}
